@@ -16,8 +16,9 @@ E_PROGRAM = 7 << 32
 E_ILLEGAL_OWNER = 18 << 32
 E_ADVANCE = 9004
 
-RULE = ("every nesting of the harness family (31 Rust types: Signer/Mut/MaybeSigner/MaybeMut/Program/Sysvar/"
-        "SystemAccount/#[validate(address)]/Box/nested struct, depth <= 4), plain and wrapped in Option, x all 4 "
+RULE = ("every nesting of the harness family (46 entries: Signer/Mut/MaybeSigner/MaybeMut/Program/Sysvar/"
+        "SystemAccount/#[validate(address)]/Box/nested struct, depth <= 4; the address pinned under the default validate id, under a "
+        "named validate id, under both (same / different keys), each validated through either id), plain and wrapped in Option, x all 4 "
         "signer/writable flag combinations x account key in {expected key, each of its 256 one-bit flips, 32 one-byte "
         "changes, the current program id, random} x owner in {system, one-bit flips, random} x present/absent, and the same decisions repeated on accounts with a balance of 0 / u64::MAX / around the rent minimum and with data present (state no check may depend on). "
         "non-trivial = accepted, or rejected while differing from an accepted account in one bit / one flag")
@@ -28,6 +29,7 @@ TRUSTED = [
 ]
 ASSUMPTIONS = [
     "the order of checks of a stack is: #[validate(address)] of the enclosing field first, then wrappers innermost first (as generated)",
+    "a #[validate(id = .., address = ..)] attribute applies to the validate id it names and to no other (validated through another id, the field carries no address layer)",
     "an optional account whose key equals the current program id decodes as absent (the documented placeholder encoding)",
 ]
 
@@ -69,6 +71,8 @@ def _layers(sig, keys):
             out += [5] + keys["own"]
         elif t == "Aa":
             out += [6] + keys["a"]
+        elif t == "Ab":
+            out += [6] + keys["b"]
         elif t == "Yrent":
             out += [6] + keys["rent"]
         elif t == "Yinst":
@@ -81,12 +85,17 @@ def _layers(sig, keys):
             out += [8]
         elif t == ".":
             out += [9]
+        elif t[0] == "x":
+            # marker: which validate id pins the address / validates the set (vh_c09.rs fam!).  The model stops decoding the
+            # layer list at this code and so ignores it: it must come LAST
+            assert t is sig[-1]
+            out += [10, int(t[1:])]
     return out
 
 
 def _expected_key(sig, keys):
     for t in sig:
-        m = {"Psys": "sys", "Pown": "own", "Aa": "a", "Yrent": "rent", "Yinst": "inst", "Yslot": "slot"}.get(t)
+        m = {"Psys": "sys", "Pown": "own", "Aa": "a", "Ab": "b", "Yrent": "rent", "Yinst": "inst", "Yslot": "slot"}.get(t)
         if m:
             return keys[m]
     return None
@@ -186,7 +195,7 @@ def _decode(c):
         if t in (1, 2, 8, 9):
             layers.append((t,))
             i += 1
-        elif t in (3, 4):
+        elif t in (3, 4, 10):
             layers.append((t, ls[i + 1]))
             i += 2
         else:
@@ -196,7 +205,7 @@ def _decode(c):
 
 
 LN = {1: "Signer", 2: "Mut", 3: "MaybeSigner", 4: "MaybeMut", 5: "Program", 6: "Address/Sysvar", 7: "SystemAccount",
-      8: "Box", 9: "nested"}
+      8: "Box", 9: "nested", 10: "validate-id variant (marker, no check)"}
 
 
 def describe(c):
